@@ -547,3 +547,99 @@ func ruleCopyComplete(c *Ctx, floor int, pkgs ...string) {
 	}
 	c.Floor("copy methods of struct types", n, floor)
 }
+
+// ---------------------------------------------------------------------------
+// encode-pure (C17): encoding a value does not change it. For every encoder method (EncodeBinary,
+// EncodeBinaryWithContext, MarshalJSON, ToStackItem, Bytes) with a pointer receiver - and the methods of the same
+// receiver it calls - no field of the receiver is assigned, except fields tabled as lazily filled caches. An encoder
+// that marks the value while writing it (a flag bit or-ed into a field) hands every later reader of that value a
+// different one: the block that was just stored is then compared with Halt and is not.
+var encodePureOK = map[string]string{
+	"pkg/core/mpt#bytes":                  "BaseNode cache of the node's own encoding, filled on first use and invalidated by every structural change",
+	"pkg/core/mpt#bytesValid":             "validity flag of that cache",
+	"pkg/core/mpt#hash":                   "BaseNode cache of the node hash",
+	"pkg/core/mpt#hashValid":              "validity flag of that cache",
+	"pkg/core/block#hash":                 "cached identity, computed from the hashable fields on first use",
+	"pkg/core/transaction#hash":           "cached identity",
+	"pkg/core/transaction#hashed":         "validity flag of the cached identity",
+	"pkg/core/transaction#size":           "cached size of the encoding",
+	"pkg/network/payload#Data":            "consensus.Payload derives the extensible payload's Data from its message once, while Data is nil (encodeData)",
+	"pkg/network/payload#ValidBlockStart": "set together with Data by encodeData (constant 0)",
+	"pkg/network/payload#ValidBlockEnd":   "set together with Data by encodeData (the block index)",
+	"pkg/network/payload#hash":            "cached identity",
+	"pkg/core/state#hash":                 "cached identity",
+}
+
+func ruleEncodePure(c *Ctx) {
+	enc := map[string]bool{"EncodeBinary": true, "EncodeBinaryWithContext": true, "MarshalJSON": true, "ToStackItem": true, "Bytes": true, "EncodeHashableFields": true, "encodeHashableFields": true}
+	n := 0
+	for _, fd := range c.P.AllFuncDecls() {
+		if fd.Decl.Recv == nil || fd.Decl.Body == nil || !enc[fd.Decl.Name.Name] || len(fd.Decl.Recv.List[0].Names) == 0 {
+			continue
+		}
+		rel := pkgRel(fd.Pkg.Types)
+		if !strings.HasPrefix(rel, "pkg/") || strings.HasPrefix(rel, "pkg/rpcclient") || strings.HasPrefix(rel, "pkg/compiler") || strings.HasPrefix(rel, "pkg/neotest") || rel == "pkg/io" {
+			continue
+		}
+		sig := fd.Obj.Type().(*types.Signature)
+		pt, ok := sig.Recv().Type().(*types.Pointer)
+		if !ok {
+			continue // a value receiver cannot change the caller's value
+		}
+		nt, ok := pt.Elem().(*types.Named)
+		if !ok {
+			continue
+		}
+		if _, ok := nt.Underlying().(*types.Struct); !ok {
+			continue
+		}
+		n++
+		seen := map[*FuncDecl]bool{}
+		var scan func(md *FuncDecl, depth int)
+		scan = func(md *FuncDecl, depth int) {
+			if md == nil || md.Decl.Body == nil || md.Decl.Recv == nil || len(md.Decl.Recv.List[0].Names) == 0 || seen[md] || depth > 2 {
+				return
+			}
+			seen[md] = true
+			info := md.Pkg.TypesInfo
+			recv := info.ObjectOf(md.Decl.Recv.List[0].Names[0])
+			ast.Inspect(md.Decl.Body, func(x ast.Node) bool {
+				switch y := x.(type) {
+				case *ast.AssignStmt:
+					for _, l := range y.Lhs {
+						se, ok := ast.Unparen(l).(*ast.SelectorExpr)
+						if !ok {
+							continue
+						}
+						id, ok := ast.Unparen(se.X).(*ast.Ident)
+						if !ok || info.ObjectOf(id) != recv {
+							continue
+						}
+						v, ok := info.ObjectOf(se.Sel).(*types.Var)
+						if !ok || !v.IsField() {
+							continue
+						}
+						key := "encode-pure." + rel + "." + nt.Obj().Name() + "." + fd.Decl.Name.Name + "." + v.Name()
+						if why, ok := encodePureOK[symOf(v)]; ok {
+							c.OK(key, c.P.Pos(y.Pos()), "tabled cache field: "+why)
+						} else {
+							c.Fail(key, c.P.Pos(y.Pos()), fmt.Sprintf("%s.%s changes the value it encodes: field %s is assigned in %s", nt.Obj().Name(), fd.Decl.Name.Name, v.Name(), FuncKey(md.Obj)))
+						}
+					}
+				case *ast.CallExpr:
+					if se, ok := ast.Unparen(y.Fun).(*ast.SelectorExpr); ok {
+						if id, ok := ast.Unparen(se.X).(*ast.Ident); ok && info.ObjectOf(id) == recv {
+							if m, ok := info.ObjectOf(se.Sel).(*types.Func); ok {
+								scan(c.P.DeclOf(m), depth+1)
+							}
+						}
+					}
+				}
+				return true
+			})
+		}
+		scan(fd, 0)
+		c.OK("encode-pure."+rel+"."+nt.Obj().Name()+"."+fd.Decl.Name.Name, c.P.Pos(fd.Decl.Pos()), "encoder examined")
+	}
+	c.Floor("pointer-receiver encoders", n, 40)
+}
